@@ -11,6 +11,16 @@ Theorem coverage_sound : forall S, check_coverage S = true ->
   forall t, In t (refs_below S n) -> t <> 0 -> exists u, In (u, t) (tables_reported S n).
 Proof. exact Proofs.coverage_sound. Qed.
 
+(* The positions listed in the schema as forbidding subqueries are not an exception any more but a premise that
+   is computed per tree: when [forbidden_clean S n] holds, EVERY named table reference below the statement is
+   reported.  (Trees for which it fails are exactly the statements with a table reference inside a CHECK / DEFAULT /
+   GENERATED / index expression; the check executes each of them and requires the engine to refuse it.) *)
+Theorem coverage_sound_total : forall S, check_coverage S = true ->
+  forall n ti, conforms S n = true -> find_ty S (n_ty n) = Some ti -> t_stmt ti = true ->
+  forbidden_clean S n = true ->
+  forall t, In t (refs_below_all S n) -> t <> 0 -> exists u, In (u, t) (tables_reported S n).
+Proof. exact Proofs.coverage_sound_total. Qed.
+
 (* ... and a statement of a schema-changing kind whose target is present reports an admin usage; a schema
    passing check_ddl gives every such statement type a source for it *)
 Theorem ddl_requires_admin : forall S, check_ddl S = true ->
@@ -33,24 +43,22 @@ Proof. exact executes_checks_all. Qed.
 (* The property: under a schema that passes both checks, a statement executes only if every table it
    references anywhere had a permission check that passed (read for references, the kind's own write
    permission for its target), and a schema-changing statement only with DSN-administrator authority. *)
-Definition C15_statement (S : schema) : Prop :=
-  forall chk n ti, conforms S n = true -> find_ty S (n_ty n) = Some ti -> t_stmt ti = true ->
-    executes S chk n = true ->
-    (forall t, In t (refs_below S n) -> t <> 0 -> exists u, chk (perm_for (kind_of S n) u) t = true)
-    /\ (forall c f k, find_case S (n_ty n) = Some c -> In f (c_write c) -> In k (kids n f) -> n_tag k <> 0 ->
-          chk (write_perm (kind_of S n)) (n_tag k) = true)
-    /\ (is_ddl_kind (kind_of S n) = true -> target_present S n = true -> exists t, chk PDsnAdmin t = true).
+Definition C15_statement (S : schema) : Prop := every_table_checked_stmt S.
 
 Theorem C15_every_table_checked : forall S, check_coverage S && check_ddl S = true -> C15_statement S.
-Proof.
-  intros S H. apply andb_true_iff in H as [Hc Hd]. intros chk n ti Hcf Ft Hs Hex.
-  unfold executes in Hex. pose proof (authorize_all _ _ _ Hex) as Hall. repeat split.
-  - intros t Ht Hz. destruct (Proofs.coverage_sound S Hc n ti Hcf Ft Hs t Ht Hz) as (u & Hu).
-    exists u. apply (Hall u t Hu).
-  - intros c f k Fc Hf Hk Hz. apply (Hall UWrite (n_tag k)). eapply write_target_reported; eauto.
-  - intros Hk Htp. unfold kind_of in Hk. destruct (find_case S (n_ty n)) as [c|] eqn:Fc; [|discriminate].
-    destruct (Proofs.ddl_requires_admin S Hd n c Fc Hk Htp) as (t & Ht). exists t. apply (Hall UAdmin t Ht).
-Qed.
+Proof. exact every_table_checked. Qed.
+
+(* the same composition without any excepted position, under the per-tree premise *)
+Theorem C15_every_table_checked_total : forall S, check_coverage S && check_ddl S = true ->
+  forall chk n ti, conforms S n = true -> find_ty S (n_ty n) = Some ti -> t_stmt ti = true ->
+    forbidden_clean S n = true -> executes S chk n = true ->
+    forall t, In t (refs_below_all S n) -> t <> 0 -> exists u, chk (perm_for (kind_of S n) u) t = true.
+Proof. exact every_table_checked_total. Qed.
+
+Example C15_total_nonvacuous :
+  forbidden_clean mini_fixed w_update = true /\ In 2 (refs_below_all mini_fixed w_update) /\
+  refs_below_all mini_fixed w_update = [1; 2].
+Proof. vm_compute. repeat split; auto. Qed.
 
 (* the pinned tree, in miniature: UPDATE t SET a = (SELECT ... FROM other) executes for a caller who may
    only update t, although it reads other; DROP INDEX executes for a caller with no permission at all *)
